@@ -80,14 +80,14 @@ def jvar : String → Option JVar
 def shipFn : String → Option Ship
   | "hash" => some .hash | "bcast" => some .bcast | _ => none
 def repFn (s : String) : Option Rep :=
-  if s == "u" then some .u else if s == "one" then some .one else
+  if s == "u" then some .u else if s == "one" then some .one else if s == "host" then some .host else
   match s.toNat? with
   | some k => if k > 0 then some (.lim k) else none
   | none => none
 
 def pOf {α} (f : String → Option α) : P α := fun ws => do let (w, r) ← tok ws; let x ← f w; pure (x, r)
 
-partial def pLoop (depth : Nat) : P LoopSpec := fun ws => do
+partial def pLoop (depth : Nat) (hasSide : Bool) : P LoopSpec := fun ws => do
   if depth > 4 then none
   let (iters, ws) ← pNat ws
   let (init, ws) ← pInt ws
@@ -110,7 +110,19 @@ partial def pLoop (depth : Nat) : P LoopSpec := fun ws => do
       | "addst" => do let (c, ws) ← pInt ws; stages n ws (.addst c :: acc)
       | "gbsum" => do let (f, ws) ← pOf keyFn ws; let (c, ws) ← pInt ws; stages n ws (.gbsum f c :: acc)
       | "reduce" => do let (g, ws) ← pOf aggFn ws; stages n ws (.reduce g :: acc)
-      | "replay" => do let (l, ws) ← pLoop (depth + 1) ws; stages n ws (.replay l :: acc)
+      | "replay" => do let (l, ws) ← pLoop (depth + 1) hasSide ws; stages n ws (.replay l :: acc)
+      | "iterate" => do let (l, ws) ← pLoop (depth + 1) hasSide ws; stages n ws (.iterate l :: acc)
+      | "gbwin" => do
+        let (f, ws) ← pOf keyFn ws; let (c, ws) ← pInt ws; let (w, ws) ← pNat ws; let (sl, ws) ← pNat ws
+        if w == 0 || sl == 0 then none else stages n ws (.gbwin f c w sl :: acc)
+      | "gbfold" => do
+        let (f, ws) ← pOf keyFn ws; let (c, ws) ← pInt ws; let (g, ws) ← pOf aggFn ws
+        stages n ws (.gbfold f c g :: acc)
+      | "joinside" => do
+        if !hasSide then none
+        let (f1, ws) ← pOf keyFn ws; let (c1, ws) ← pInt ws; let (f2, ws) ← pOf keyFn ws; let (c2, ws) ← pInt ws
+        stages n ws (.joinside f1 c1 f2 c2 :: acc)
+      | "mergeside" => if !hasSide then none else stages n ws (.mergeside :: acc)
       | _ => none
   let (body, ws) ← stages n ws []
   pure (.mk iters init agg cp ck body, ws)
@@ -179,8 +191,14 @@ def parseKind (kind : String) (ws : List String) : Option (Kind × List String) 
     let (a, ws) ← pRef ws
     let ps ← ws.mapM parseRoutePred
     pure (.route a ps, [])
-  | "replay" => do let (a, ws) ← pRef ws; let (l, ws) ← pLoop 0 ws; pure (.replay a l, ws)
-  | "iterate" => do let (a, ws) ← pRef ws; let (l, ws) ← pLoop 0 ws; pure (.iterate a l, ws)
+  | "replay" => do
+    let (a, ws) ← pRef ws
+    let (sd, ws) := match pRef ws with | some (b, r) => (some b, r) | none => (none, ws)
+    let (l, ws) ← pLoop 0 sd.isSome ws; pure (.replay a sd l, ws)
+  | "iterate" => do
+    let (a, ws) ← pRef ws
+    let (sd, ws) := match pRef ws with | some (b, r) => (some b, r) | none => (none, ws)
+    let (l, ws) ← pLoop 0 sd.isSome ws; pure (.iterate a sd l, ws)
   | "sink" => do let (a, ws) ← pRef ws; pure (.sink a, ws)
   | _ => none
 
@@ -209,6 +227,26 @@ def kindName : Kind → String
   | .kjoin .. => "kjoin" | .route .. => "route" | .replay .. => "replay" | .iterate .. => "iterate"
   | .sink _ => "sink"
 
+partial def bodyTags (pre : String) : List BStage → List String
+  | [] => []
+  | s :: ss =>
+    (match s with
+     | .gbwin .. => ["body:gbwin"] | .gbfold .. => ["body:gbfold"] | .joinside .. => ["body:joinside"]
+     | .mergeside => ["body:mergeside"]
+     | .replay (.mk _ _ _ _ _ b) => [s!"body:replay-in-{pre}"] ++ bodyTags "replay" b
+     | .iterate (.mk _ _ _ _ _ b) => [s!"body:iterate-in-{pre}"] ++ bodyTags "iterate" b
+     | _ => []) ++ bodyTags pre ss
+
+/-- distribution tags of the newer generator features -/
+def featureTags (job : Job) : List String :=
+  (job.flatMap fun n => match n.kind with
+    | .replay _ sd (.mk _ _ _ _ _ b) => (if sd.isSome then ["loop:side-input"] else []) ++ bodyTags "replay" b
+    | .iterate _ sd (.mk _ _ _ _ _ b) => (if sd.isSome then ["loop:side-input"] else []) ++ bodyTags "iterate" b
+    | .repl _ .host | .repart _ .host _ _ => ["rep:host"]
+    | .repl _ (.lim _) => ["rep:limited-forward"]
+    | .kwin _ _ _ g => [if g == .cnt then "kwin:cnt" else "kwin:ordered-agg"]
+    | _ => []).eraseDups
+
 def mix (a b c : Nat) : Nat :=
   let x := (a * 1000003 + b * 7919 + c * 104729 + 12345) % 4294967291
   (x * 48271 + (x / 65536)) % 2147483647
@@ -220,42 +258,47 @@ def mkOrc (seed : Nat) : Orc :=
 
 def canon (l : List (Nat × List V)) : List String := sinkLines l
 
-/-- sanity of the executable model (not a proof): on jobs of the fragment of
-    `parEval_perm_seqEval`, `parEval` under a few replica counts / pseudo-random schedules must give
-    the sequential sink multisets -/
+/-- no order-sensitive stage anywhere in the job -/
 def parCheckable (job : Job) : Bool :=
   job.all fun n => match n.kind with
     | .kwin .. | .zip .. => false   -- order sensitive: the arbitrary arrival order of parEval is too liberal
     | _ => true
 
+/-- sanity of the executable model (not a proof): `parEval` under 5 replica counts / pseudo-random
+    schedules (hash function, routing choices, arrival orders, order of the loop-state deltas) must
+    give the sequential sink multisets
+    * on ALL sinks of a job without order-sensitive stages (a superset of what the theorem covers:
+      also keyed joins, `key_by` as generated, …), and
+    * on the sinks covered by `parEval_perm_seqEval_covered` (`coveredSinks`) of every other job.
+    All node kinds take part, loops included (parallel loop protocol `parLoopRun`). -/
 def parCheck (seed : Nat) (job : Job) (seq : List (Nat × List V)) : Option String :=
-  if !parCheckable job then none else
-  let want := canon seq
+  let keep : List (Nat × List V) → List (Nat × List V) :=
+    if parCheckable job then id else
+      let cov := coveredSinks job
+      fun l => l.filter fun p => cov.contains p.1
+  let want := canon (keep seq)
   let trials : List (Nat × Nat) := [(1, seed), (2, seed + 1), (3, seed + 2), (4, seed + 3), (7, seed + 4)]
-  match trials.find? (fun t => canon (parEval ⟨t.1⟩ (mkOrc t.2) job) != want) with
-  | some t => some s!"[C01] model-internal parEval(par={t.1}) differs from seqEval: {(canon (parEval ⟨t.1⟩ (mkOrc t.2) job)).take 2} vs {want.take 2}"
+  match trials.find? (fun t => canon (keep (parEval ⟨t.1, 1 + t.2 % 4⟩ (mkOrc t.2) job)) != want) with
+  | some t => some s!"[C01] model-internal parEval(par={t.1}) differs from seqEval: {(canon (keep (parEval ⟨t.1, 1 + t.2 % 4⟩ (mkOrc t.2) job))).take 2} vs {want.take 2}"
   | none => none
 
 def handle (c : Case) : Verdict :=
   let job := parseJob c.ops
-  let tagged := c.ops.filterMap fun w => match w with | ["tag", t] => some t | _ => none
   let seq := seqEval job
   let model := sinkLines seq
   let cfg := (c.header.drop 2).headD "?"
   let bm := (c.header.drop 3).headD "?"
   let cfgClass := if cfg.startsWith "R" then "remote" else "local"
   let kinds := (job.map fun n => kindName n.kind).eraseDups
+  let hosts := if cfg.startsWith "R" then (cfg.splitOn ":").length else 1
   let tags := [s!"cfg:{cfgClass}", s!"batch:{(bm.takeWhile Char.isAlpha).toString}"] ++
-    (kinds.filter (· != "sink")).map (s!"op:{·}")
+    (if hosts ≥ 4 then ["cfg:hosts4"] else []) ++
+    (if bm.startsWith "a" then [s!"batch:{bm}"] else []) ++
+    (kinds.filter (· != "sink")).map (s!"op:{·}") ++ featureTags job
   let nontrivial := seq.any fun p => !p.2.isEmpty
   if c.implOut == ["infra"] then
-    { out := c.implOut, oracle := none, nontrivial := false, tags := ["infra"] }
-  else if tagged.contains "f4" then
-    -- explicit witnesses of finding F4 (tracked under C03/C19): reported under that property
-    { out := c.implOut,
-      oracle := if c.implOut == model then none
-                else some s!"[C03] known:F4-forward-link-fewer-replicas engine={c.implOut} sequential={model}",
-      nontrivial := false, tags := ["tag:f4"] }
+    -- the engine did not run (address clash): nothing to compare; `out` merely echoes the harness
+    { out := c.implOut, oracle := none, nontrivial := false, tags := ["infra", "nodiff"] }
   else
     let firstDiff := (model.zip c.implOut).find? fun p => p.1 != p.2
     let engine :=
@@ -270,7 +313,9 @@ def handle (c : Case) : Verdict :=
       | some a, none => some a
       | none, some b => some b
       | some a, some b => some (a ++ " ;; " ++ b)
-    let tags := tags ++ [if orderInsensitive job then "fragment:order-insensitive" else "fragment:outside"]
+    let ncov := (coveredSinks job).length
+    let tags := tags ++ [if orderInsensitive job then "theorem:all-sinks-covered"
+                         else if ncov > 0 then "theorem:some-sinks-covered" else "theorem:no-sink-covered"]
     { out := model, oracle, nontrivial, tags }
 
 end Noir.Driver.E2e
